@@ -65,6 +65,11 @@ def execute(desc):
     if desc.get('adversary'):
         h.adversary = Adversary(h, lan, desc['adversary'])
 
+    # invariant evaluated while the run proceeds: right after every outcome (same virtual instant, after the stack has
+    # unwound) no FINISHED transaction state machine may still sit in the scheduler
+    h.timer_residue = []
+    w.outcome_hooks.append(lambda seq: w.after(0.0, _inspect_timers, h, seq))
+
     if desc.get('iam'):
         for name in sorted(h.stacks):
             st = h.stacks[name]
@@ -82,6 +87,16 @@ def execute(desc):
     tm.tasks = []
     core.deferredFns = []
     return h
+
+
+def _inspect_timers(h, seq):
+    from bacpypes.appservice import SSM, COMPLETED, ABORTED
+    w = h.w
+    for (when, n, task) in tm.tasks:
+        if isinstance(task, SSM) and task.state in (COMPLETED, ABORTED):
+            h.timer_residue.append({'seq': seq, 't': w.now, 'cls': type(task).__name__, 'state': SSM.transactionLabels[task.state],
+                                    'due_in': when - w.now, 'peer': addr_str(task.pdu_address), 'invoke': task.invokeID})
+    w.probe('timer_invariant_checked')
 
 
 def _hook_app(h, st):
